@@ -28,9 +28,11 @@ META = {
                   'patchesLock and memoryAccessLock (so the three-phase mprotect/copy/mprotect script of one thread never interleaves with another, even on a '
                   'shared page), every listed shared access is inside its lock, every page keeps x in every intermediate state, every call of a steadily '
                   'mocked function returns the mocked result (incl. callbacks calling the origin placeholder), other threads never change a thread\'s own '
-                  'targets, each thread\'s targets evolve exactly as in its solo run, and at quiescence after reset all targets are pristine. '
+                  'targets, each thread\'s targets and control state evolve exactly as in a run in which it alone is scheduled (isolation by solo simulation), and '
+                  'restoration at quiescence transfers from each builder\'s sequential run to every interleaving, with both locks free. '
                   'The model is tied to the code by differential runs of the real API under -race.',
-    'level_note': 'Partial because: (1) data races on fields the model does not list are only covered by the Go race detector during the stress runs (a test); '
+    'level_note': 'Partial because: (0) that a single builder\'s sequential run ends pristine is the hypothesis of quiescent_restored (property C02\'s subject); here it is '
+                  'evaluated by the driver for every generated round, not proved for all programs; (1) data races on fields the model does not list are only covered by the Go race detector during the stress runs (a test); '
                   '(2) torn instruction fetch during the 13-byte entry write and CPU cross-modifying-code behaviour cannot be exhibited by the model - only '
                   'crash-free stress (a test); (3) the 13-byte copy is one model step. internal/patch exports Unpatch/UnpatchInstanceMethod/UnpatchAll which '
                   'touch the patch table WITHOUT patchesLock; they are unreachable from the builder API (verified by grep on every run) and therefore outside '
@@ -375,7 +377,7 @@ def run(tier):
             out.violation(f'{st["noexec"]} mprotect call(s) on the text mapping without PROT_EXEC (a page of running code lost x)',
                           {'kind': 'impl-oracle', 'ops': [st_line], 'strace': st}, key='noexec')
         if st['interleaved']:
-            out.violation('two WriteTo mprotect scripts interleaved on the text mapping (memoryAccessLock not held across the script)',
+            out.violation('mprotect calls on the text mapping do not form serial RWX..RX scripts (two WriteTo scripts interleaved, or a page left writable)',
                           {'kind': 'impl-oracle', 'ops': [st_line], 'strace': st}, key='interleaved')
         if wmodel != f'copies={st["scripts"]}':
             corr.append(f'WriteTo scripts under strace: {st["scripts"]}, model: {wmodel}')
@@ -386,6 +388,19 @@ def run(tier):
         corr.append('unlocked patch-table accessors are now reachable from non-test code: ' + '; '.join(reach))
     if model is None:
         proof['failed'].append(('goomdrv', 'driver does not build: ' + derr[-500:]))
+    if not out.violations and not out.known_hits and (diffs or corr or not proof['ok']):
+        # something is broken but no failing input yet: widen the search (x8 rounds, bigger teams) before saying so
+        wops = [gen_round(rng, 'thorough' if i % 2 else tier, big=(i % 16 == 0))[0] for i in range(8 * nrounds if tier == 'quick' else nrounds)]
+        wimpl, _, _ = execute(wops, tag='c11-widen', binary=binary)
+        for i, op in enumerate(wops):
+            r = oracle(op, wimpl[i])
+            if r and r[1] not in seen:
+                seen.add(r[1])
+                out.violation(r[0], {'kind': 'impl-oracle', 'ops': [op], 'observed': wimpl[i], 'expected': expect(op), 'found_by': 'widened search',
+                                     'how': 'python3 check.py C11 --replay <this file>'}, key=r[1])
+        widened = len(wops)
+    else:
+        widened = 0
     if not out.violations and not out.known_hits:
         if diffs:
             i, op, a, b = diffs[0]
@@ -418,7 +433,7 @@ def run(tier):
         'rule': 'one evaluation = one concurrent round in a fresh -race process (steady builder + N builders over disjoint targets + M callers + '
                 'neighbour spinners); non-trivial = distinct observation of a round in which builder operations measurably overlapped in time',
         'distribution': {
-            'rounds': n_real, 'corpus': len(corpus()), 'malformed_lane': len(malformed),
+            'rounds': n_real, 'widened_search_rounds': widened, 'corpus': len(corpus()), 'malformed_lane': len(malformed),
             'builders_per_round': {str(k): sum(1 for m in metas if m['nb'] == k) for k in sorted({m['nb'] for m in metas})},
             'callers_max': max((m['nc'] for m in metas), default=0), 'callers_total': sum(m['nc'] for m in metas),
             'layout_modes': {k: sum(1 for m in metas if m['mode'] == k) for k in sorted({m['mode'] for m in metas})},
